@@ -29,7 +29,7 @@ NO_COPY = {'SpatialVelocity', 'SpatialAcceleration', 'SpatialForce', 'SpatialMom
 PAIRS = [('SO3', 'SE3'), ('SO2', 'SE2'), ('Quaternion', 'UnitQuaternion'),
          ('Twist2', 'Twist3'), ('SpatialVelocity', 'SpatialAcceleration'),
          ('SpatialForce', 'SpatialMomentum'), ('Plucker', 'Twist3')]
-MAX_LEN = 40            # operations that would make an object longer are skipped
+MAX_LEN = 72            # operations that would make an object longer are skipped
 LITS = ['ndarray', 'list_of_ndarray', 'none', 'scalar', 'tuple', 'str', 'numlist']
 
 # X([y1..yn]) with items of another class that the constructor documents as a conversion
@@ -96,6 +96,38 @@ def elem_value(cname, k):
     raise core.HarnessError('no element generator for ' + cname)
 
 
+def special_value(cname, j):
+    """Boundary members of each class: identities, half turns, zero vectors, pure translations."""
+    j = int(j) % 3
+    if cname == 'SO2':
+        return [np.eye(2), np.array([[-1.0, 0.0], [0.0, -1.0]]), np.array([[0.0, -1.0], [1.0, 0.0]])][j]
+    if cname == 'SE2':
+        T = np.eye(3)
+        if j == 1:
+            T[:2, 2] = [1.0, 2.0]
+        if j == 2:
+            T[:2, :2] = [[-1.0, 0.0], [0.0, -1.0]]
+            T[:2, 2] = [0.0, 3.0]
+        return T
+    if cname == 'SO3':
+        return [np.eye(3), np.diag([1.0, -1.0, -1.0]),
+                np.array([[0.0, -1.0, 0.0], [1.0, 0.0, 0.0], [0.0, 0.0, 1.0]])][j]
+    if cname == 'SE3':
+        T = np.eye(4)
+        if j == 1:
+            T[:3, 3] = [1.0, 2.0, 3.0]
+        if j == 2:
+            T[:3, :3] = np.diag([1.0, -1.0, -1.0])
+        return T
+    if cname == 'Quaternion':
+        return [np.zeros(4), np.array([1.0, 0, 0, 0]), np.array([0.0, 0, 0, 1.0])][j]
+    if cname == 'UnitQuaternion':
+        return [np.array([1.0, 0, 0, 0]), np.array([0.0, 1.0, 0, 0]), np.array([-1.0, 0, 0, 0])][j]
+    if cname == 'Twist2':
+        return [np.zeros(3), np.array([1.0, 2.0, 0.0]), np.array([0.0, 0.0, 1.0])][j]
+    return [np.zeros(6), np.array([1.0, 2.0, 3.0, 0, 0, 0]), np.array([0.0, 0, 0, 0, 0, 1.0])][j]
+
+
 def identity_value(cname):
     return {
         'SO2': np.eye(2), 'SE2': np.eye(3), 'SO3': np.eye(3), 'SE3': np.eye(4),
@@ -137,6 +169,19 @@ def describe(arr):
         return {'type': 'ndarray', 'shape': list(arr.shape), 'dtype': str(arr.dtype),
                 'head': [float(v) if arr.dtype.kind in 'fiu' else str(v) for v in flat[:4]]}
     return {'type': type(arr).__name__}
+
+
+def _npi(i, kind):
+    """An index as a NumPy integer scalar of the requested kind (or the plain int)."""
+    if not kind:
+        return i
+    if kind == 'int32':
+        return np.int32(i)
+    if kind == 'uint8' and 0 <= i < 256:
+        return np.uint8(i)
+    if kind == 'intp':
+        return np.intp(i)
+    return np.int64(i)
 
 
 class Obj:
@@ -259,6 +304,14 @@ class World:
                 (o.cname, tuple(e.tag for e in o.model)) if len(o.model) <= 3
                 else (o.cname, len(o.model), o.model[0].tag, o.model[-1].tag))
         self.probe('op_' + op + ':' + out.get('r', '?').split(':')[0])
+        if x0 is not None and op in MUTATORS + ('get', 'getslice', 'iter') and out.get('r') == 'ok':
+            if before[1] >= 9:       # lengths are capped at 9 in the abstract state
+                m = len(x0.model)
+                self.probe('p_op_on_len_ge_10')
+                if m >= 17:
+                    self.probe('p_op_on_len_ge_17')
+                if m >= 33:
+                    self.probe('p_op_on_len_ge_33')
         if op != 'drop':
             self.recent = (getattr(self, 'recent', ()) + (op,))[-3:]
             self.stats.setdefault('op_bigrams', set()).add(self.recent[-2:])
@@ -292,6 +345,10 @@ class World:
     def op_new(self, rec):
         cname, n = rec['cls'], int(rec['n'])
         elems = self.fresh(cname, n)
+        if rec.get('special') is not None:
+            elems = [Elem(e.tag, special_value(cname, int(rec['special']) + k))
+                     for k, e in enumerate(elems)]
+            self.probe('p_special_values')
         cls = self.K[cname]
         arrs = [np.array(e.value) for e in elems]
         try:
@@ -369,7 +426,7 @@ class World:
         if x is None:
             return {'r': 'skip'}
         i = int(rec['i'])
-        idx = np.int64(i) if rec.get('npint') else i
+        idx = _npi(i, rec.get('npint'))
         try:
             e = x.model[i]
             expect = 'ok'
@@ -413,11 +470,17 @@ class World:
         x = self.ref(rec['x'])
         if x is None:
             return {'r': 'skip'}
-        _, items = self.run_call(lambda: [e for e in x.real], 'ok', 'iteration')
-        if len(items) != len(x.model):
+        if rec.get('rev'):
+            _, items = self.run_call(lambda: [e for e in reversed(x.real)], 'ok', 'reversed iteration')
+            want = list(reversed(x.model))
+            self.probe('p_reversed_iteration')
+        else:
+            _, items = self.run_call(lambda: [e for e in x.real], 'ok', 'iteration')
+            want = list(x.model)
+        if len(items) != len(want):
             self.fail('result_value', what='iteration', why='number of items',
-                      observed=len(items), expected=len(x.model))
-        for it, e in zip(items, x.model):
+                      observed=len(items), expected=len(want))
+        for it, e in zip(items, want):
             self.check_result(it, x.cname, [e], 'iteration item')
         return {'r': 'ok', 'n': len(items)}
 
@@ -468,7 +531,7 @@ class World:
         if expect == 'skip':
             return {'r': 'skip'}
         i = int(rec['i'])
-        ii = np.int64(i) if rec.get('npint') else i
+        ii = _npi(i, rec.get('npint'))
         raised, r = self.run_call(lambda: x.real.insert(ii, val), expect, 'insert')
         if raised:
             return {'r': 'raise:' + type(r).__name__}
@@ -488,7 +551,7 @@ class World:
         inrange = -len(x.model) <= i < len(x.model)
         if expect == 'ok' and not inrange:
             expect = 'IndexError'
-        ii = np.int64(i) if rec.get('npint') else i
+        ii = _npi(i, rec.get('npint'))
         raised, r = self.run_call(lambda: x.real.__setitem__(ii, val), expect, 'x[i] = y')
         if raised:
             return {'r': 'raise:' + type(r).__name__}
@@ -537,7 +600,7 @@ class World:
         if i is None:
             raised, r = self.run_call(lambda: x.real.pop(), expect, 'pop()')
         else:
-            ii = np.int64(int(i)) if rec.get('npint') else int(i)
+            ii = _npi(int(i), rec.get('npint'))
             raised, r = self.run_call(lambda: x.real.pop(ii), expect, 'pop(i)')
         if raised:
             return {'r': 'raise:' + type(r).__name__}
@@ -558,7 +621,7 @@ class World:
             expect = 'ok'
         except IndexError:
             expect = 'IndexError'
-        ii = np.int64(i) if rec.get('npint') else i
+        ii = _npi(i, rec.get('npint'))
         raised, r = self.run_call(lambda: x.real.__delitem__(ii), expect, 'del x[i]')
         if raised:
             return {'r': 'raise:' + type(r).__name__}
@@ -626,7 +689,8 @@ PROBES = ['slice_empty_result', 'slice_negative_step', 'slice_bound_beyond_len',
           'slice_negative_bound', 'self_extend', 'self_operand',
           'operand_shares_element_with_receiver', 'pop_empty', 'insert_beyond_end',
           'setitem_negative', 'get_negative', 'parent_into_child', 'child_into_parent',
-          'rejected_then_accepted', 'alloc_zero', 'from_list_ok',
+          'rejected_then_accepted', 'alloc_zero', 'from_list_ok', 'special_values',
+          'reversed_iteration', 'op_on_len_ge_10', 'op_on_len_ge_17', 'op_on_len_ge_33',
           'from_list_bad_item_next_to_empty_item', 'extend_by_len_0',
           'extend_by_len_1', 'extend_by_len_2']
 
@@ -676,6 +740,8 @@ def gen_config(rng, classes_pool=None):
         'heap_cap': rng.choice([3, 5, 8]),
         'init_objs': rng.choice([1, 1, 2, 3]),
         'full_domain_index': rng.random() < 0.5,
+        'scale': rng.choice([1, 1, 1, 1, 1, 4, 8]),
+        'special_rate': rng.choice([0.0, 0.0, 0.3, 1.0]),
     }
 
 
@@ -699,29 +765,40 @@ def _bound(rng, n):
     r = rng.random()
     if r < 0.3:
         return None
-    if r < 0.8:
+    if r < (0.8 if n <= 7 else 0.45):
         return rng.randint(-7, 7)
     return rng.randint(-n - 1, n + 1)
+
+
+def _npkind(rng):
+    return rng.choice(['int64', 'int32', 'uint8', 'intp']) if rng.random() < 0.12 else False
 
 
 def gen_init(cfg, rng):
     recs = []
     for _ in range(cfg['init_objs']):
         c = rng.choice(cfg['classes'])
-        n = rng.randint(0, 4)
+        n = rng.randint(0, 4) * cfg.get('scale', 1)
         if n == 0:
             recs.append({'op': 'empty', 'cls': c})
         elif rng.random() < 0.15:
             recs.append({'op': 'alloc', 'cls': c, 'n': n})
         else:
-            recs.append({'op': 'new', 'cls': c, 'n': n})
+            recs.append(_new_rec(c, n, cfg, rng))
     return recs
+
+
+def _new_rec(c, n, cfg, rng):
+    rec = {'op': 'new', 'cls': c, 'n': n}
+    if rng.random() < cfg.get('special_rate', 0.0):
+        rec['special'] = rng.randrange(3)
+    return rec
 
 
 def gen_step(world, cfg, rng):
     objs = world.objs
     if not objs:
-        return {'op': 'new', 'cls': rng.choice(cfg['classes']), 'n': rng.randint(1, 3)}
+        return _new_rec(rng.choice(cfg['classes']), rng.randint(1, 3), cfg, rng)
     if len(objs) > cfg['heap_cap']:
         return {'op': 'drop', 'x': rng.randrange(len(objs))}
     op = core.weighted_choice(rng, _weights(cfg))
@@ -733,18 +810,21 @@ def gen_step(world, cfg, rng):
     n = len(x.model)
 
     if op == 'new':
-        return {'op': 'new', 'cls': rng.choice(cfg['classes']), 'n': rng.randint(1, 4)}
+        return _new_rec(rng.choice(cfg['classes']), rng.randint(1, 4 * cfg.get('scale', 1)), cfg, rng)
     if op == 'empty':
         return {'op': 'empty', 'cls': rng.choice(cfg['classes'])}
     if op == 'alloc':
-        return {'op': 'alloc', 'cls': rng.choice(cfg['classes']), 'n': rng.randint(0, 4)}
+        return {'op': 'alloc', 'cls': rng.choice(cfg['classes']),
+                'n': rng.randint(0, 4 * cfg.get('scale', 1))}
     if op == 'copy':
         return {'op': 'copy', 'x': xi}
-    if op in ('reverse', 'clear', 'iter'):
+    if op == 'iter':
+        return {'op': op, 'x': xi, 'rev': rng.random() < 0.3}
+    if op in ('reverse', 'clear'):
         return {'op': op, 'x': xi}
     if op == 'get':
         return {'op': 'get', 'x': xi, 'i': _index(rng, n, cfg, fault == 'bad_index'),
-                'keep': rng.random() < 0.5, 'npint': rng.random() < 0.1}
+                'keep': rng.random() < 0.5, 'npint': _npkind(rng)}
     if op == 'getslice':
         return {'op': 'getslice', 'x': xi, 'start': _bound(rng, n), 'stop': _bound(rng, n),
                 'step': rng.choice([None, None, None, 1, -1, 2, -2, 3, -3]),
@@ -752,10 +832,10 @@ def gen_step(world, cfg, rng):
     if op == 'pop':
         i = None if rng.random() < 0.4 else _index(rng, n, cfg, fault == 'bad_index')
         return {'op': 'pop', 'x': xi, 'i': i, 'keep': rng.random() < 0.4,
-                'npint': rng.random() < 0.1}
+                'npint': _npkind(rng)}
     if op == 'del':
         return {'op': 'del', 'x': xi, 'i': _index(rng, n, cfg, fault == 'bad_index'),
-                'npint': rng.random() < 0.1}
+                'npint': _npkind(rng)}
 
     def pick(pred):
         c = [k for k, o in enumerate(objs) if pred(o)]
@@ -818,8 +898,10 @@ def gen_step(world, cfg, rng):
         rec['i'] = rng.randint(-7, 7) if rng.random() < 0.3 else rng.randint(-n - 1, n + 1)
     if op == 'setitem':
         rec['i'] = _index(rng, n, cfg, fault == 'bad_index')
-    if op in ('insert', 'setitem') and rng.random() < 0.1:
-        rec['npint'] = True
+    if op in ('insert', 'setitem'):
+        k = _npkind(rng)
+        if k:
+            rec['npint'] = k
     return rec
 
 
@@ -870,7 +952,7 @@ def nontrivial(ops, log):
 # simplification candidates for the minimiser: smaller / simpler versions of a record
 def simplify(rec):
     out = []
-    for key in ('keep', 'npint', 'as'):
+    for key in ('keep', 'npint', 'as', 'rev', 'special'):
         if rec.get(key):
             r = dict(rec)
             r.pop(key)
